@@ -284,6 +284,19 @@ func c05Strata() []*gast.Grammar {
 		mk(r("S", gast.S(gast.Star(gast.S(gast.L("a"), gast.St(1, box), gast.L("b"))), gast.Opt(gast.S(gast.St(2, box), gast.L("z"))), obs(3), gast.Star(gast.Dot())))),
 		// action scribbling
 		mk(r("S", gast.S(gast.St(1, box), gast.A(gast.L("a"), 2, mon.Spec{Scr: true}), obs(3), gast.Star(gast.Dot())))),
+		// recursion: a rule reaches its state block only through the rule that calls it (nested lists);
+		// both orders of the two rules
+		mk(r("S", gast.S(gast.St(1, box), gast.Ref("List"), obs(2), gast.Star(gast.Dot()))),
+			r("List", gast.S(gast.L("["), gast.Star(gast.S(gast.Ref("Value"), gast.L(","))), gast.Ref("Value"), gast.L("]"), gast.St(3, box))),
+			r("Value", gast.C(gast.Ref("List"), gast.Plus(gast.Cl(gast.Chars("01")))))),
+		mk(r("S", gast.S(gast.St(1, box), gast.Ref("List"), obs(2), gast.Star(gast.Dot()))),
+			r("Value", gast.C(gast.Ref("List"), gast.Plus(gast.Cl(gast.Chars("01"))))),
+			r("List", gast.S(gast.L("["), gast.Opt(gast.S(gast.Ref("Value"), gast.Star(gast.S(gast.L(","), gast.Ref("Value"))))), gast.L("]"), gast.St(3, box)))),
+		// inside a lookahead: a sequence / alternative that changed the state and failed, then an observer
+		// in the SAME lookahead
+		mk(r("S", gast.S(gast.St(1, box), gast.C(gast.S(gast.AndE(gast.S(gast.Ref("Scan"), obs(2))), obs(3)), obs(4)), gast.Star(gast.Dot()))),
+			r("Scan", gast.Star(gast.C(gast.Ref("Mark"), gast.Cl(gast.Chars("ab*"))))), r("Mark", gast.S(gast.L("*"), gast.St(5, box), gast.L("!")))),
+		mk(r("S", gast.S(gast.St(1, box), gast.NotE(gast.S(gast.C(gast.S(gast.L("a"), gast.St(2, box), gast.L("x")), gast.L("a")), obs(3), gast.L("!"))), obs(4), gast.Star(gast.Dot())))),
 		// a throw below two nested recovery operators for its label, both recovery expressions fail;
 		// the abandoned alternative is followed by one that keeps changing the store and backtracking
 		mk(r("S", gast.S(gast.St(1, box), gast.C(gast.Ref("Strict"), gast.Ref("Loose")), obs(2), gast.Star(gast.Dot()))),
@@ -328,8 +341,9 @@ func C11(c *Ctx) {
 		Profile: p, Grammars: c11Strata(), NGrammars: c.N(110, 1500),
 		FlagSets:  [][]string{{}, {"-optimize-parser"}},
 		InputsPer: c.N(80, 200), ExhaustLimit: c.N(120, 600), ExhaustLen: 6,
-		OptSets: []OptSet{{Name: "default"}, {Name: "norecover", NoRecover: true}, {Name: "file", File: "in.txt"}, {Name: "file-colon", File: "dir:a/b.x:3"}, {Name: "file-percent", File: "export%20data 100%.csv"}, {Name: "memoize", Memo: true}, {Name: "stats", Stats: true}},
-		Compare: CmpErrs | CmpErrTypes | CmpVal | CmpPanic | CmpOK,
+		OptSets:       []OptSet{{Name: "default"}, {Name: "norecover", NoRecover: true}, {Name: "file", File: "in.txt"}, {Name: "file-colon", File: "dir:a/b.x:3"}, {Name: "file-percent", File: "export%20data 100%.csv"}, {Name: "memoize", Memo: true}, {Name: "stats", Stats: true}, {Name: "debug", Debug: true}},
+		DebugOptEvery: 5,
+		Compare:       CmpErrs | CmpErrTypes | CmpVal | CmpPanic | CmpOK,
 		NonTrivial: func(m *ref.Result) bool {
 			if m.Panicked {
 				return true
@@ -385,6 +399,9 @@ func c11Strata() []*gast.Grammar {
 		// a panic below a lookahead after something was consumed there
 		mk(r("S", gast.S(gast.L("a"), gast.C(gast.S(gast.NotE(gast.S(gast.L("bb"), gast.A(gast.L("c"), 1, mon.Spec{P: 4}))), gast.Star(gast.Dot())), gast.Star(gast.Dot()))))),
 		mk(r("S", gast.S(gast.L("a"), gast.AndE(gast.S(gast.L("b\n"), gast.Plus(gast.L("b")), gast.AndC(2, mon.Spec{P: 2}))), gast.Star(gast.Dot())))),
+		// nested handlers: the inner recovery expression reports an error and then fails, the outer one recovers
+		mk(r("S", gast.S(gast.Lab("v", gast.Ref("Outer")), gast.Star(gast.Dot()))), r("Outer", gast.Rec(gast.Ref("Inner"), gast.S(gast.AndC(1, mon.Spec{E: 1}), gast.A(gast.Dot(), 2, mon.Spec{})), "L1")),
+			r("Inner", gast.Rec(gast.Ref("Item"), gast.S(gast.AndC(3, mon.Spec{E: 1}), gast.A(gast.L("!"), 4, mon.Spec{E: 1})), "L1")), r("Item", gast.C(gast.A(gast.Plus(gast.Cl(gast.Chars("01"))), 5, mon.Spec{}), gast.Thr("L1")))),
 		// panic with string / value payloads in predicate and state blocks
 		mk(r("S", gast.S(gast.L("a"), gast.AndC(1, mon.Spec{P: 2}), gast.St(2, mon.Spec{P: 3}), gast.L("b")))),
 	}
@@ -526,6 +543,15 @@ func c14Strata() []*gast.Grammar {
 	r := func(n string, e *gast.Expr) *gast.Rule { return &gast.Rule{Name: n, Expr: e} }
 	act := func(e *gast.Expr, id int) *gast.Expr { return gast.A(e, id, mon.Spec{}) }
 	return []*gast.Grammar{
+		// a recovery expression that can match empty, and a backtracking path that throws the same label
+		// again at the same position
+		mk(r("S", gast.C(gast.S(gast.L("A:"), gast.Lab("v", gast.Ref("CaseA")), gast.NotE(gast.Dot())), gast.S(gast.L("B:"), gast.Lab("v", gast.Ref("CaseB")), gast.NotE(gast.Dot())), gast.Star(gast.Dot()))),
+			r("CaseA", gast.Rec(gast.Ref("Stmt"), gast.Ref("Missing"), "L1")), r("CaseB", gast.Rec(gast.Ref("Inner"), act(gast.L(""), 1), "L1")), r("Inner", gast.Rec(gast.Ref("Stmt"), gast.Ref("Missing"), "L1")),
+			r("Stmt", gast.C(act(gast.S(gast.L("l "), gast.Lab("n", gast.Ref("Name")), gast.L("=1")), 2), act(gast.S(gast.L("l "), gast.Lab("n", gast.Ref("Name")), gast.L(";")), 3))),
+			r("Name", gast.C(act(gast.Plus(gast.Cl(gast.Chars("ab"))), 4), gast.Thr("L1"))), r("Missing", act(gast.L(""), 5))),
+		// a label thrown after its guard has been left (an unguarded sibling, a later repetition item)
+		mk(r("S", gast.Star(gast.C(gast.S(gast.L("["), gast.Rec(gast.Ref("X"), act(gast.Dot(), 1), "L1"), gast.L("]")), gast.S(gast.L("("), gast.Ref("X"), gast.L(")")), act(gast.Dot(), 2)))),
+			r("X", gast.C(act(gast.Cl(gast.Chars("ab")), 3), gast.Thr("L1")))),
 		// two mutually recursive rules, each guarded by an operator for the same label: a throw
 		// directly inside the re-entered outer operator belongs to that operator, not to the one
 		// entered in between
